@@ -597,6 +597,7 @@ def check_split(ctx: Ctx, fi, ifnode):
     sspec, siter, sfilters = ser
     ctx.decide(sspec.key() == pspec.key(), "PARMAP", site + ":same-callee", (fi, mp),
                f"serial and parallel apply {pspec}", f"serial applies {sspec} but parallel applies {pspec}")
+    check_independent_items(ctx, fi, fv, piter, site)
     a, b = strip_iter(model, fv.mod, siter), strip_iter(model, fv.mod, piter)
     ctx.decide(U(a) == U(b), "PARMAP", site + ":same-iterable", (fi, mp), f"both iterate over {U(a)} in order",
                f"serial iterates {U(siter)} but parallel maps over {U(piter)}")
@@ -622,6 +623,76 @@ def check_split(ctx: Ctx, fi, ifnode):
             if isinstance(n, ast.Call) and isinstance(n.func, ast.Attribute) and n.func.attr in ("sort", "reverse") and isinstance(n.func.value, ast.Name) and n.func.value.id == pres:
                 ctx.violate("PARMAP", site + ":tail", (fi, n), f"result list is reordered in place: {U(n)}")
     ctx.hold("PARMAP", site + ":tail", fi, "no reordering between the branches and the return")
+
+
+def check_failure_propagates(ctx: Ctx, rule="PARMAP"):
+    """A failure inside a split function reaches the caller.  The serial branch works on the caller's objects (droplets are
+    refined in place), the parallel branch on pickled copies: a handler that swallows the failure and carries on with "the
+    candidates" continues with partly modified objects in one case and untouched ones in the other."""
+    from ..astutil import stmt_index as _si
+    from ..normalize import always_exits
+
+    m = ctx.model
+    split_names = {fi.qualname for fi, _ in discover_splits(m)}
+    n = 0
+    for g in m.all_functions():
+        if not g.qualname.startswith("droplets."):
+            continue
+        gv = view(m, g)
+        si = None
+        for c in gv.calls():
+            callee = gv.callee(c) or ""
+            if callee not in split_names:
+                continue
+            si = si or _si(gv)
+            swallowed = None
+            for node_, fld in si.ancestors(c):
+                if isinstance(node_, ast.Try) and fld == "body":
+                    for h in node_.handlers:
+                        if not (h.body and isinstance(h.body[-1], ast.Raise)):
+                            swallowed = h
+            n += 1
+            ctx.decide(swallowed is None, rule, f"{g.qualname}:failure-propagates[{callee.split('.')[-1]}]", (g, swallowed if swallowed is not None else c),
+                       f"a failure of {callee.split('.')[-1]} propagates to the caller",
+                       f"`except {U(swallowed.type) if swallowed is not None and swallowed.type is not None else ''}` swallows a failure of {callee.split('.')[-1]} and execution continues with the objects handed to it: "
+                       "the serial branch has already modified them in place up to the failing item, the parallel branch worked on copies — the result depends on the process count")
+    return n
+
+
+def check_independent_items(ctx: Ctx, fi, fv, it_expr, site, rule="PARMAP"):
+    """Executor.map draws its items eagerly and pickles them later (feeder thread): every item must be an object of its own.
+    A generator that yields one object and modifies it between yields hands every task the state of a later item."""
+    m = ctx.model
+    it = it_expr
+    while isinstance(it, ast.Call) and (dotted(it.func) or "").split(".")[-1] in ("display_progress", "iter", "list", "tuple") and it.args:
+        it = it.args[0]
+    if not (isinstance(it, ast.Call) and isinstance(it.func, ast.Name)):
+        return
+    cands = [g for g in m.all_functions() if g.name == it.func.id and (g.parent is fi or (g.parent is None and g.module is fi.module and g.cls is None))]
+    if len(cands) != 1 or isinstance(cands[0].node, ast.Lambda):
+        return
+    g = cands[0]
+    ys = [y for y in ast.walk(g.node) if isinstance(y, ast.Yield) and y.value is not None]
+    if not ys:
+        return
+    bad = None
+    for y in ys:
+        if not isinstance(y.value, ast.Name):
+            continue
+        nm = y.value.id
+        for s_ in ast.walk(g.node):
+            tg = s_.targets if isinstance(s_, ast.Assign) else ([s_.target] if isinstance(s_, ast.AugAssign) else [])
+            for t in tg:
+                root = t
+                while isinstance(root, (ast.Attribute, ast.Subscript)):
+                    root = root.value
+                if isinstance(t, (ast.Attribute, ast.Subscript)) and isinstance(root, ast.Name) and root.id == nm:
+                    bad = bad or (s_, nm)
+            if isinstance(s_, ast.Call) and isinstance(s_.func, ast.Attribute) and isinstance(s_.func.value, ast.Name) and s_.func.value.id == nm and s_.func.attr in ("fill", "update", "set_data", "__setitem__"):
+                bad = bad or (s_, nm)
+    ctx.decide(bad is None, rule, site + ":independent-items", (g, bad[0]) if bad else g, "every mapped item is an object of its own",
+               f"`{U(bad[0])[:60] if bad else ''}` modifies the object `{bad[1] if bad else ''}` that {g.name}() has already yielded: Executor.map draws the items ahead of pickling them, so parallel tasks "
+               "receive the state of a later frame while the lazy serial branch sees each frame in turn")
 
 
 def check_pickle_writable(ctx: Ctx, rule="PICKLE"):
@@ -838,6 +909,12 @@ def check(ctx: Ctx):
         check_split(ctx, fi, ifn)
     check_forwarding(ctx)
     check_pickle_writable(ctx)
+    check_failure_propagates(ctx)
+    # a task may not write to the image or to anything reached from it (the grid and its class-level tables are shared by all
+    # tasks of a serial run but copied for every parallel task)
+    from ..rules import refine as _refine
+
+    _refine.check_image_readonly(ctx)
     from ..rules import iteronce
 
     for q in ENTRY:
@@ -845,7 +922,8 @@ def check(ctx: Ctx):
             iteronce.check_function(ctx, fi)
     check_pure(ctx)
     check_fixture(ctx)
-    ctx.expect("PARMAP", 14)
+    ctx.expect("PARMAP", 16)
+    ctx.expect("EFFECT", 3)
     ctx.expect("SHARED", 2)
     ctx.expect("PICKLE", 1)
     ctx.expect("FORWARD", 2)
